@@ -228,8 +228,62 @@ def w_second(cfg, tier):
     return col.result()
 
 
+REAL_DECODERS = {'unionfind': 'UnionFindDecoder', 'sweepmatch': 'SweepMatchDecoder',
+                 'rotatedsweepmatch': 'RotatedSweepMatchDecoder', 'matching': 'MatchingDecoder'}
+
+
+def w_real(cfg, tier):
+    """cfg = 'real <decoder> <code> w=<max weight>': the parts of the statement whose decoders cannot be
+    encoded (union-find, sweep-match: their control flow is the syndrome).  The error (positions and X/Y/Z
+    letters, weight <= w) is solver-chosen and REALISED; the real decoder with the real engines runs on each."""
+    import panqec.decoders as pd_
+    from panqec.error_models import PauliErrorModel
+    parts = cfg.split(' ')
+    Dec = getattr(pd_, REAL_DECODERS[parts[1]])
+    code = common.make_code(parts[2])
+    wmax = int(parts[3].split('=')[1])
+    n = code.n
+    col = hz.Collector(cfg)
+    col.encoded(Dec.decode)
+    em = PauliErrorModel(1 / 3, 1 / 3, 1 / 3)
+    eng = Engine(name=cfg, max_paths=200000)
+    with eng:
+        qs = [eng.integer(f'q{i}', 0, n - 1) for i in range(wmax)]
+        ls = [eng.integer(f'l{i}', 1 if i == 0 else 0, 3) for i in range(wmax)]     # 1=X 2=Z 3=Y, 0 = absent
+        for a_, b_ in zip(qs, qs[1:]):
+            eng.assume_base((a_ < b_).t)
+
+        def fn():
+            e = np.zeros(2 * n, dtype=np.uint8)
+            for q, l in zip(qs, ls):
+                qv, lv = int(q), int(l)
+                if lv & 1:
+                    e[qv] ^= 1
+                if lv & 2:
+                    e[n + qv] ^= 1
+            dec = Dec(code, em, 0.1)
+            c = np.asarray(dec.decode(code.measure_syndrome(e)))
+            return e.tolist(), c.shape == (2 * n,) and bool(code.is_success((c.astype(np.uint8) + e) % 2))
+        ps = eng.explore(fn)
+    col.absorb(eng)
+    bad = []
+    w = [None]
+    for p in ps:
+        if p.exc is not None:
+            bad.append(z3_and(p.pc))
+            w[0] = w[0] or dict(error=None, exception=f'{type(p.exc).__name__}: {p.exc}')
+            continue
+        e, ok = p.value
+        bad.append(z3_and(p.pc + [z3.BoolVal(not ok)]))
+        if not ok and w[0] is None:
+            w[0] = dict(error=e, real=parts[1])
+    col.prove(f'C09/real/{parts[1]}/every-error-of-weight-le-{wmax}-is-corrected', eng.base, z3_or(bad), lambda m: w[0],
+              f'{len(ps)} realised errors (all supports of size <= {wmax}, all X/Y/Z letters), real {Dec.__name__}')
+    return col.result()
+
+
 def worker(cfg, tier='quick'):
-    return {'optimal': w_optimal, 'correctable': w_correctable, 'second': w_second}[cfg.split()[0]](cfg, tier)
+    return {'optimal': w_optimal, 'correctable': w_correctable, 'second': w_second, 'real': w_real}[cfg.split()[0]](cfg, tier)
 
 
 def replay(path):
@@ -243,6 +297,18 @@ def replay(path):
     n = code.n
     bad = False
     try:
+        if cfg.startswith('real'):
+            import panqec.decoders as pd_
+            parts = cfg.split(' ')
+            Dec = getattr(pd_, REAL_DECODERS[parts[1]])
+            code = common.make_code(parts[2])
+            e = np.array(w['error'], dtype=np.uint8)
+            dec = Dec(code, PauliErrorModel(1 / 3, 1 / 3, 1 / 3), 0.1)
+            c = np.asarray(dec.decode(code.measure_syndrome(e))).astype(np.uint8)
+            bad = not code.is_success((c + e) % 2)
+            print('error', e.tolist(), 'corrected:', not bad)
+            print('REPLAY', 'reproduced' if bad else 'not-reproduced', oid, cfg)
+            return 0
         if cfg.startswith('second'):
             # real PyMatching: build A then B, compare B's edge weights with B's own get_weights()
             import panqec.codes as pc
@@ -340,7 +406,13 @@ def configs(tier):
         cor += ['Planar2DCode(4,4)', 'RotatedPlanar2DCode(4,4)', 'RotatedPlanar2DCode(5,5)', 'Planar2DCode(5,5)',
                 'Toric2DCode(5,5)', 'RotatedPlanar2DCode(5,4)']
     sec = ['Toric2DCode(2,2)/XZZX/x y', 'Planar2DCode(2,3)/XZZX/y x', 'RotatedPlanar2DCode(3,3)/XZZX/x none']
-    return [f'optimal {c}' for c in opt] + [f'correctable {c}' for c in cor] + [f'second {c}' for c in sec]
+    real = ['real unionfind Toric2DCode(3,3) w=1', 'real unionfind Toric2DCode(3,4) w=1', 'real sweepmatch Toric3DCode(3,3,3) w=1',
+            'real rotatedsweepmatch RotatedPlanar3DCode(3,3,3) w=1', 'real matching RotatedPlanar2DCode(3,3) w=1']
+    if tier != 'quick':
+        real += ['real unionfind Toric2DCode(4,4) w=1', 'real unionfind Toric2DCode(5,5) w=2', 'real sweepmatch Toric3DCode(3,4,3) w=1',
+                 'real sweepmatch Toric3DCode(4,4,4) w=1', 'real rotatedsweepmatch RotatedPlanar3DCode(4,4,3) w=1',
+                 'real rotatedsweepmatch RotatedPlanar3DCode(5,5,3) w=1', 'real matching Toric2DCode(5,5) w=2']
+    return [f'optimal {c}' for c in opt] + [f'correctable {c}' for c in cor] + [f'second {c}' for c in sec] + real
 
 
 def main(argv=None):
@@ -360,9 +432,9 @@ def main(argv=None):
         bounds=dict(optimal='2-D codes with n <= 9 (quick) / <= 18 (thorough); symbolic error, distribution, competitor',
                     correctable='toric / planar / rotated planar, L <= 4 (quick) / <= 5 (thorough), rectangular included'),
         stubs=['pymatching.Matching -> MatchStub'],
-        outside=['exactness of PyMatching', 'union-find and sweep-match end-to-end correction guarantees (their control '
-                 'flow is the syndrome: symbolic execution degenerates into enumeration) - these parts of the statement '
-                 'are not decided'])
+        outside=['exactness of PyMatching', 'union-find and sweep-match end-to-end correction guarantees: their control '
+                 'flow is the syndrome, so they are only explored as a REALISED list of low-weight errors with the real '
+                 'engines (the solver enumerates it) - bounded exploration, not a symbolic argument'])
 
 
 if __name__ == '__main__':
